@@ -5,6 +5,7 @@ import struct
 import common
 from harness import mo_lib as ML
 from harness import c08 as C08
+from harness import glue_lib
 
 TRUSTED = [
     'Coq 8.16.1 kernel (coqc, vm_compute); coqchk in thorough tier',
@@ -14,8 +15,9 @@ TRUSTED = [
     'oracles applied by the harness to the model result: encodings.is_ascii_compatible_encoding, bytes.decode(charset)',
     'modelled, not verified: memoryview slicing/indexing, struct.unpack, bytes.split, the `re` search for charset=',
     'the independent reference reader tools/harness/mo_lib.py:ref_read (written from gmo.h) and the fault enumerator',
-    'Checker.check glue: exercised in-process through tools/harness/impl_checker.py on a sample, not modelled in the theorems '
-    '(Model/MoParser.v:checker_load is a definition only)',
+    'Checker.check glue: Model/Check.v (the loaders are an oracle with six outcome classes), theorems C09_glue_*; tied to the real method by '
+    'tools/harness/glue_lib.py (scripted loader outcomes, sub-checks replaced by recorders, driver op checktop) and exercised on real files through '
+    'tools/harness/impl_checker.py on a sample; Model/MoParser.v:checker_load is the same structure specialised to the MO loader model',
 ]
 ASSUME = ['bytes of the file are < 256 (bytes_ok) in the soundness theorem',
           '"header" = the words a reader must interpret (0..4, and word 9 when minor = 1): a 20..27-byte file with nstrings = 0 is accepted '
@@ -300,6 +302,9 @@ def check(ctx):
                 ctx.fail('glue', info, 'invalid-mo-file reported for a file the loader accepts')
             if ('broken-encoding' in names) != (exp1[0] == 'decode'):
                 ctx.fail('glue', info, 'broken-encoding reported = %r, decode error = %r' % ('broken-encoding' in names, exp1[0] == 'decode'))
+    # the same glue with scripted loader outcomes (every combination of first attempt / retry for the MO constructor) against
+    # Model/Check.v, and the oracle: moparser.SyntaxError on the last attempt <=> exactly invalid-mo-file (+ broken-encoding), no sub-check
+    glue_lib.run_stream(ctx, prefix='glue', only_mo=True)
     ctx.samples = [{'file': list(p[1])[:120], 'stream': cases[p]} for p in list(cases)[::max(1, len(cases) // 10)]][:10]
     ctx.notes.append('seed files: %d (%s)' % (len(sds), ', '.join(sorted({o for _, _, o in sds}))))
     return common.finish(
